@@ -24,9 +24,15 @@ def run(rep, tier):
                                    timeout=(20 if tier == "quick" else 120), function="SU_vector::Rotate(i,j,th,del) + rotation_switcher.h + RotationSU%d_%d%d.txt" % (d, i + 1, j + 1),
                                    where="src/SUNalg.cpp"))
 
+    ctu = extract.instantiate(open(os.path.join(core.VERIF, "contracts", "C06_ucmu_l2.c")).read(), rep)
+    rep.assume("gsl_blas_zgemm(TA,TB,alpha,A,B,beta,C): C := alpha*op(A)*op(B)+beta*C (documented BLAS contract, assumed); thread_local holders as fresh matrices")
+    for d in ((2, 3, 4) if tier == "quick" else (2, 3, 4, 5, 6)):
+        qs.append(l2.Query("ucmu.d%d" % d, ctu, ["D=%d" % d, "WHAT=1"], timeout=300, function="gsl_matrix_complex_change_basis_UCMU (U^dagger M U; used by Rotate(U), UTransform)", where="src/SUNalg.cpp"))
+        qs.append(l2.Query("iucmu.d%d" % d, ctu, ["D=%d" % d, "WHAT=2"], timeout=300, function="gsl_matrix_complex_change_basis_IUCMU (U M U^dagger; used by UDaggerTransform)", where="src/SUNalg.cpp"))
+
     def gens(q):
         df = l2.defs_of(q)
-        if "LINEAR" in df:
+        if "LINEAR" in df or "II" not in df:
             return None
         d = int(df["D"])
         return [l2.Query("%s.gen%d" % (q.name, ia), ctext, list(q.defines) + ["IA=%d" % ia], trig=True, timeout=timeout,
@@ -34,6 +40,8 @@ def run(rep, tier):
 
     def witness(q, sub):
         df = l2.defs_of(q)
+        if "II" not in df:
+            return dict(family="ucmu", d=int(df["D"]), what=int(df["WHAT"]), seed=core.SEED)
         w = dict(family="rotation", d=int(df["D"]), i=int(df["II"]), j=int(df["JJ"]), seed=core.SEED)
         if sub is not None:
             w["ia"] = int(l2.defs_of(sub.q)["IA"])
